@@ -1,6 +1,6 @@
 (* Executable entry point of correspondence stage `cmd` (C15). *)
 From Coq Require Import ZArith List Bool Arith.
-From PM Require Import Model.Options.
+From PM Require Import Model.Options Model.Objects.
 Import ListNotations.
 
 Definition enc_att (a : att) : list Z :=
@@ -15,3 +15,15 @@ Definition enc_att (a : att) : list Z :=
 Definition attach_case (tags : list Z) (counts : list nat) (by_geo : bool) (ps : list nat) : list (list Z) :=
   let w := write_attach tags counts by_geo ps in
   map enc_att w ++ [match resolve_all tags counts w with Some l => map Z.of_nat l | None => [(-1)%Z] end].
+
+(* objects: the reader's result for the given object options and what the writer makes of it, as rows
+   [kind; tag; had; body] / [kind; tag or -1; body]; a rejected option list gives [[-1]] *)
+Definition kcode (k : okind) : Z := match k with KArc => 0 | KHelix => 1 | KWire => 2 end%Z.
+Definition obj_case (ls : list oline) : list (list Z) :=
+  match read_objs ls with
+  | None => [[(-1)%Z]]
+  | Some gs =>
+      map (fun g => [kcode (g_kind g); g_tag g; if g_had g then 1 else 0; Z.of_nat (g_body g)]%Z) gs
+      ++ [[(-2)%Z]]
+      ++ map (fun l => [kcode (ol_kind l); match ol_tag l with Some t => t | None => (-1)%Z end; Z.of_nat (ol_body l)]%Z) (write_objs gs)
+  end.
